@@ -35,37 +35,57 @@ N_RANDOM = {'quick': 2860, 'thorough': 80080}     # per 13: 3 suspended-handler,
 
 RULE = (
     "One case = one history on one simulated world (client 'me' + scripted server + peers p1,p2 with established P "
-    "links; fixed latency of 2..8 ticks of 1/64 s per connection, seg='whole', all instants on the dyadic grid). A "
+    "links; fixed latency of 0..8 ticks of 1/64 s per connection, seg='whole', all instants on the dyadic grid). A "
     "history = 1..4 concurrent requests x 1..8 incoming messages in 1..8 segments (one write = one segment = frames "
     "processed back-to-back) x one end per request (timeout T, or cancellation by the workload: future.cancel() / "
     "task.cancel()). Request kinds: wait_for_server_message, wait_for_peer_message, create_server_response_future, "
     "create_peer_response_future, register_response_future (also peer=None and connection-class/message-class "
     "mismatch), execute(cmd, response=True) for GetUserStatus/GetUserStats/GetPeerAddress/CheckPrivileges/"
-    "PeerGetUserInfo/PeerGetDirectoryContent, transfers.request_place_in_queue. Matchers: 0..2 fields, exact or "
-    "callable, including (callable, exact). Messages are generated relative to a request: matching, wrong in the "
-    "first/last matched field, right fields from the other peer, other type, unrelated. The end of a request is placed "
-    "before / exactly at / after the first matching arrival; a cancellation at the arrival instant is run in three "
-    "controlled orders (a: cancel and its removal callback before the reader task; b: cancel in the same loop "
-    "iteration as, and before, the reader task; c: after the message was processed and the caller resumed). The first cases are hand-written "
-    "minimal histories (every kind x {no message, matching message, cancel, arrival == deadline}, two waiters, two "
-    "matching frames in one segment, matcher order, wrong peer), then random.Random(f'{seed}:C12:{idx}') histories. "
+    "PeerGetUserInfo/PeerGetDirectoryContent, transfers.request_place_in_queue. Message classes: 10, among them "
+    "PrivateChatMessage (its library handler acks through gather and is really suspended for several loop "
+    "iterations), PeerTransferQueue for an unshared file, PeerUserInfoRequest. Matchers: 0..2 fields, exact or "
+    "callable, including (callable, exact). Three generator families (per 13 random cases: 8/3/2): "
+    "GENERAL — messages generated relative to a request (matching, wrong in the first/last matched field, right "
+    "fields from the other peer, other type, unrelated); the end of a request before / exactly at / after the first "
+    "matching arrival; a cancellation at the arrival instant in controlled orders (a: before the bytes reach the "
+    "reader, b: same loop iteration as and before the reader task, c: after the caller resumed). "
+    "SUSPENDED-HANDLER — 2-3 waiters answered by one message whose handling really suspends (the library's "
+    "private-message handler, or an application MessageReceivedEvent listener awaiting 1..6 zero-time yields or 1..3 "
+    "ticks of virtual time); an earlier-registered waiter is cancelled 0..8 loop iterations after the arrival, or "
+    "reaches its library timeout / is cancelled at the arrival instant or inside the virtual-time suspension. "
+    "CALL-RACE — zero-latency links; a matching reply is written 0..8 zero-time yields before/after the call is "
+    "started at the same virtual instant, so that it is processed while execute() is still sending. The first cases "
+    "are hand-written minimal histories of all of the above, then random.Random(f'{seed}:C12:{idx}') histories. "
     "Non-trivial = at least one request outcome was judged against the model; distinct = (multiset of request kinds, "
-    "message pattern classes, timing classes)."
+    "message pattern classes, segment shape, timing classes)."
 )
 ASSUMPTIONS = [
-    "Reference model (from the statement): a request is pending from the instant of the call (t_call) to its end "
-    "(t_call + T — 15 s for request_place_in_queue — or the instant the workload cancels, whichever is first). It must complete with the first message event strictly inside "
-    "that window whose source (server / the named peer), class and ALL field matchers accept; with no such event it "
-    "ends with the documented timeout error (TimeoutError; RequestPlaceFailedError for request_place_in_queue) resp. "
-    "CancelledError. Events at exactly t_call or exactly the end instant may or may not count (both outcomes "
-    "accepted, whatever the sub-instant order was).",
+    "Reference model (from the statement; see judge()): one counter orders the moment the harness task is about to "
+    "enter the library call (seq_call), the moment the first MessageReceivedEvent listener sees a message and the "
+    "moment the last listener returned (the library completes waiters right after it). A matching message (source = "
+    "server / the named peer, class, ALL field matchers) MUST complete the request if it was seen after the call "
+    "started (by order, also at the same virtual instant) and the request's end instant (t_call + T — 15 s for "
+    "request_place_in_queue — or the instant the workload cancels, whichever is first) is strictly later than the "
+    "instant its handlers finished; the first such message wins. A request that ended otherwise must end with the "
+    "documented timeout error (TimeoutError; RequestPlaceFailedError for request_place_in_queue) resp. CancelledError.",
+    "Accepted either way: a message seen before the call started but whose handlers finished after it; a request "
+    "whose end instant lies between (inclusive) the instant a message was seen and the instant its handlers finished "
+    "(sub-instant order of timers is not judged). A request that was evidently completed by a later message must "
+    "not have skipped an earlier matching one seen after its call started.",
+    "request_place_in_queue creates its waiter only after its own request was sent: for this kind a message at the "
+    "virtual instant of the call is accepted either way (every other kind registers synchronously at the call, "
+    "before its first suspension — this is what the order rule relies on).",
     "Message order and arrival instants are the observed MessageReceivedEvent sequence of the client; the source of "
     "an event is derived from the connection's socket address, not from the username the library attributes.",
     "For execute(PeerGetDirectoryContentCommand) the expected field values are the directory asked for and the ticket "
     "carried by the request frame the peer actually received.",
-    "ERROR records 'error during callback' are attributed to the message event they follow; the mechanism named in the "
-    "signature (completed/cancelled waiter not yet removed) is read from a snapshot of Network._expected_response_"
-    "futures taken in the MessageReceivedEvent listener (classification only, the rule itself is the logged error).",
+    "ERROR records 'error during callback' are attributed to the message event whose last listener returned just "
+    "before them; the mechanism named in the signature is derived from harness facts (a matching request ended "
+    "between first and last listener) or from a snapshot of Network._expected_response_futures (classification only, "
+    "the rule itself is the logged error).",
+    "An application listener registered on MessageReceivedEvent that awaits (zero-time yields or virtual time) is a "
+    "legitimate part of the environment; replies are not causally tied to requests (the server also pushes "
+    "unsolicited status/stat updates), so a reply may be processed before the request frame has left.",
     "Not judged: which of several timers due at one virtual instant fires first (only varied, both outcomes accepted); "
     "callable matchers that raise; connection loss while a request is pending and the cancel-on-send-failure path of "
     "execute() (C10/C11 territory: needs a cut link, which ends the history); D/F connections and obfuscated links "
@@ -74,14 +94,16 @@ ASSUMPTIONS = [
     "GetPeerAddress requests so that only scripted replies arrive.",
 ]
 MIN_OBS = {
-    'quick': {'histories': 2000, 'requests_judged': 4800, 'messages_delivered': 7000, 'same_instant_cases': 800,
-              'back_to_back_segments': 1200, 'residue_checks': 2000, 'later_delivery_checks': 2000,
+    'quick': {'histories': 3000, 'requests_judged': 6500, 'messages_delivered': 8500, 'same_instant_cases': 1300,
+              'back_to_back_segments': 1300, 'residue_checks': 3000, 'later_delivery_checks': 3000,
               'cancel_at_arrival_order_a': 50, 'cancel_at_arrival_order_b': 90, 'cancel_at_arrival_order_c': 50,
-              'deadline_at_arrival': 600},
-    'thorough': {'histories': 80000, 'requests_judged': 190000, 'messages_delivered': 280000,
-                 'same_instant_cases': 32000, 'back_to_back_segments': 48000, 'residue_checks': 80000,
-                 'later_delivery_checks': 80000, 'cancel_at_arrival_order_a': 2000, 'cancel_at_arrival_order_b': 3600,
-                 'cancel_at_arrival_order_c': 2000, 'deadline_at_arrival': 24000},
+              'cancel_at_arrival_plus_hops': 300, 'deadline_at_arrival': 600,
+              'requests_ended_while_handlers_suspended': 250, 'judged_by_order_at_the_call_instant': 450},
+    'thorough': {'histories': 80000, 'requests_judged': 180000, 'messages_delivered': 230000,
+                 'same_instant_cases': 38000, 'back_to_back_segments': 36000, 'residue_checks': 80000,
+                 'later_delivery_checks': 80000, 'cancel_at_arrival_order_a': 1400, 'cancel_at_arrival_order_b': 2500,
+                 'cancel_at_arrival_order_c': 1400, 'cancel_at_arrival_plus_hops': 8500, 'deadline_at_arrival': 17000,
+                 'requests_ended_while_handlers_suspended': 7000, 'judged_by_order_at_the_call_instant': 12000},
 }
 SHARD_TIMEOUT = {'quick': 600, 'thorough': 5400}
 WHAT_FAILS = {
@@ -91,7 +113,10 @@ WHAT_FAILS = {
     'completed-outside-window': 'a request was completed by a message that arrived before the call or after its end',
     'not-first-matching-message': 'a request was completed by a later matching message although an earlier one arrived',
     'matching-message-ignored:': 'a message that answers a pending request left it pending',
-    'callback-error:': "completing waiters raised inside the library ('error during callback')",
+    'callback-error:': "completing waiters raised inside the library ('error during callback'), e.g. a waiter that "
+                       'ended while the handlers of the message were suspended was completed without re-checking it',
+    'matching-message-ignored:processed-at-the-call-instant': 'a reply processed while the call was still sending its '
+                                                              'request was missed (waiter registered too late)',
     'residue:': 'ended requests left entries in the expected-response list',
     'later-delivery-broken': 'after the history a fresh request + matching reply did not complete',
     'request-never-ended:': 'a request neither returned nor raised after its deadline',
